@@ -33,6 +33,12 @@ MANIFEST = dict(
           "same day number (epoch 16 July 622 Julian = JDN 1948440), both round trips are identities, consecutive "
           "Moslem dates are consecutive civil days, months have 30/29 and years 354/355 days, and the two while loops "
           "of gregorian2moslem (modelled with loopFuel, fuel 8) terminate for every argument (at most 2 + 1 rounds). "
+          "Second layer: Easter repeats after 532 (Julian) resp. 5 700 000 (Gregorian) years; both Moslem functions raise "
+          "ValueError exactly on the stated range test and are total otherwise (moslem2gregorian on day 30 of a 29-day "
+          "month returns the first day of the next month); the three-times-written leap test equals the tabular year "
+          "length for every year; with float arguments the result depends on the integer parts only (easter truncates, "
+          "the others floor) while the range tests see the fraction; boundary anchors for the Easter exception step, the "
+          "fourth Pesach rule, civil day-of-year 0 / 366 and the 1582 reform. "
           "The model is tied to /repo by running its binary64 and exact instantiations against the real code bit for "
           "bit, and the Lean specifications are run against independent Python oracles; the property's clauses are "
           "evaluated on the real code against those oracles: every Easter year -4712..10000 and every Pesach year "
@@ -420,6 +426,37 @@ def check_malformed(ctx, Epoch):
     for (y, m, d) in ((2000, 0, 1), (2000, 13, 1), (2000, 1, 0), (2000, 1, 32), (-4713, 1, 1), (2000, 2, 31), (1582, 10, 10),
                       (622, 7, 15), (622, 7, 1), (600, 1, 1), (1, 1, 1), (-4712, 1, 1), (0, 2, 29), (1999, 2, 29)):
         ctx.case('gregorian2moslem', [y, m, d], run_impl(lambda: Epoch.gregorian2moslem(y, m, d)), q='exact', klass='g2m/malformed')
+    check_float_args(ctx, Epoch)
+
+
+def check_float_args(ctx, Epoch):
+    """the four functions called with float arguments (models *_num): correspondence, exact binary fractions"""
+    rng = ctx.rng
+    fr = (0.0, 0.25, 0.5, 0.75, 0.999755859375)
+    ys = [2000.7, -0.5, -1.0, -1.25, 0.0, 0.5, 1582.999755859375, 1583.0, 1583.5, -4712.0, -4711.5, 3165.5, 1990.25]
+    ys += [rng.randint(-4712, 10000) + rng.choice(fr) for _ in range(60)]
+    for y in ys:
+        ctx.case('easter_num', [float(y)], run_impl(lambda: Epoch.easter(float(y))), q='exact', klass='float_args/easter')
+    for y in ys:
+        if 1 <= y < 3001:
+            ctx.case('jewish_pesach_num', [float(y)], run_impl(lambda: Epoch.jewish_pesach(float(y))), q='exact',
+                     klass='float_args/pesach')
+    for y in (-0.5, -1.25, 0.5):
+        ctx.case('jewish_pesach_num', [y], run_impl(lambda: Epoch.jewish_pesach(y)), q=None, klass='float_args/pesach')
+    trip = [(1421.5, 1.25, 1.75), (1421.0, 1.0, 30.5), (1421.0, 1.0, 30.0), (1421.0, 12.5, 1.0), (1421.0, 12.0, 29.75),
+            (0.999755859375, 1.0, 1.0), (1.0, 1.0, 0.999755859375), (1.5, 0.75, 1.0), (990.5, 9.5, 16.5), (556.25, 1.5, 1.5)]
+    trip += [(rng.randint(1, 2500) + rng.choice(fr), rng.randint(1, 12) + rng.choice(fr), rng.randint(1, 30) + rng.choice(fr))
+             for _ in range(60)]
+    for (h, m, d) in trip:
+        ctx.case('moslem2gregorian_num', [float(h), float(m), float(d)],
+                 run_impl(lambda: Epoch.moslem2gregorian(float(h), float(m), float(d))), q='exact', klass='float_args/m2g')
+    trip = [(1991.5, 8.5, 13.5), (1991.0, 12.5, 1.0), (1991.0, 1.0, 31.5), (1991.0, 1.0, 31.0), (1582.5, 10.5, 4.5),
+            (1582.0, 10.0, 15.75), (-4712.0, 1.0, 1.0), (-4712.5, 1.0, 1.0), (622.5, 7.25, 16.25), (2000.0, 0.75, 1.0)]
+    trip += [(rng.randint(622, 3000) + rng.choice(fr), rng.randint(1, 12) + rng.choice(fr), rng.randint(1, 28) + rng.choice(fr))
+             for _ in range(60)]
+    for (y, m, d) in trip:
+        ctx.case('gregorian2moslem_num', [float(y), float(m), float(d)],
+                 run_impl(lambda: Epoch.gregorian2moslem(float(y), float(m), float(d))), q='exact', klass='float_args/g2m')
 
 
 def hijri_year(ctx, Epoch, h, full, tie=True):
